@@ -63,6 +63,9 @@ class System:
         farm.clear = clear
 
         def _pipeline(_self, *_a, **_k):
+            for u in sys_.sw.inflight:
+                if u['stale']:
+                    u['ancient'] = True
             sys_.sw.facs = engine.load(DESC)
             sys_.sw.build(set())
 
@@ -87,7 +90,7 @@ class System:
             'handed': {k: sorted(n.get('handed') or []) for k, n in nodes.items()},
             'que': s['que'],
             'status': s['status'],
-            'inflight': s['inflight'],
+            'inflight': [dict(v, ancient=bool(u.get('ancient'))) for v, u in zip(s['inflight'], self.sw.inflight)],
             'archive': s['archive'],
             'busy_view': bool(farm._busy),
             'st': l['st'],
@@ -189,7 +192,7 @@ def drain(sy, steps):
     for _ in range(80):
         e = None
         live = [u for u in sw.inflight if not u['stale']]
-        stale = [u for u in sw.inflight if u['stale']]
+        stale = [u for u in sw.inflight if u['stale'] and not (u.get('ancient') and any(v['stale'] and not v.get('ancient') and v['alg'] == u['alg'] for v in sw.inflight))]
         if lw.pending:
             e = {'ev': names[lw.pending[0][0]]}
         elif lw.process is not None:
